@@ -263,8 +263,27 @@ public:
                     Scalar p0 = p / maxval;
                     z = maxval * sqrt(abs(p0 * p0 + t0 * t1));
                 }
-                m_eivalues.coeffRef(i) = Complex(m_matT.coeff(i + 1, i + 1) + p, z);
-                m_eivalues.coeffRef(i + 1) = Complex(m_matT.coeff(i + 1, i + 1) + p, -z);
+                if (z == Scalar(0))
+                {
+                    // The discriminant of the 2x2 block has been rounded to zero, so the block
+                    // has a double real eigenvalue. Reduce it to upper triangular form by the
+                    // same rotation that UpperHessenbergSchur applies to blocks with real
+                    // eigenvalues; otherwise the two eigenvalues would be reported as real
+                    // while the eigenvector computation still sees a 2x2 block in T
+                    Eigen::JacobiRotation<Scalar> rot;
+                    rot.makeGivens(p, m_matT.coeff(i + 1, i));
+                    m_matT.rightCols(m_n - i).applyOnTheLeft(i, i + 1, rot.adjoint());
+                    m_matT.topRows(i + 2).applyOnTheRight(i, i + 1, rot);
+                    m_matT.coeffRef(i + 1, i) = Scalar(0);
+                    m_eivec.applyOnTheRight(i, i + 1, rot);
+                    m_eivalues.coeffRef(i) = m_matT.coeff(i, i);
+                    m_eivalues.coeffRef(i + 1) = m_matT.coeff(i + 1, i + 1);
+                }
+                else
+                {
+                    m_eivalues.coeffRef(i) = Complex(m_matT.coeff(i + 1, i + 1) + p, z);
+                    m_eivalues.coeffRef(i + 1) = Complex(m_matT.coeff(i + 1, i + 1) + p, -z);
+                }
                 i += 2;
             }
         }
